@@ -30,7 +30,9 @@ REQUIRED = ["concurrent runs", "importer processes", "outputs compared with soli
             "importers parked at a statement while a neighbour ran a whole import", "parks released by the neighbour's completion",
             "runs with prefix-related output names over stale files, force=True and a late starter",
             "runs in which forked importers share one DataIterator object made by the parent",
-            "runs whose importer processes each had their own PYTHONHASHSEED", "stored row order compared with solitary import"]
+            "runs whose importer processes each had their own PYTHONHASHSEED", "stored row order compared with solitary import",
+            "runs importing inputs with repeated lines under merge_strategy=warning",
+            "runs with GTF importers that have gene and transcript inference switched off"]
 ASSUMPTIONS = [
     "overlap is forced at the one point where gffutils holds an intermediate file (between writing and re-reading it); other "
     "interleavings are left to the scheduler (free-running runs with start offsets are included so the barrier cannot mask a failure)",
@@ -112,11 +114,14 @@ def file_state(path):
     return {"side_files": side, "format_versions": [head[18], head[19]] if len(head) >= 20 else None}
 
 
-def solitary(ctx, root, text, from_string):
+def solitary(ctx, root, text, from_string, strategy=None, no_inference=False):
     """Content dump of a solitary import of this input (done in this process, with its own temp directory)."""
     import gffutils
 
-    key = (text, from_string)
+    key = (text, from_string, strategy, no_inference)
+    skw = {"merge_strategy": strategy} if strategy else {}
+    if no_inference:
+        skw.update({"disable_infer_genes": True, "disable_infer_transcripts": True})
     if key in _solo_cache:
         return _solo_cache[key]
     out = ctx.tmp(".solo.db")
@@ -125,9 +130,9 @@ def solitary(ctx, root, text, from_string):
         fh.write(text)
     try:
         if from_string:
-            db = gffutils.create_db(open(inp, encoding="utf-8").read(), out, from_string=True)
+            db = gffutils.create_db(open(inp, encoding="utf-8").read(), out, from_string=True, **skw)
         else:
-            db = gffutils.create_db(inp, out)
+            db = gffutils.create_db(inp, out, **skw)
         db.conn.close()
         dump = dbdump.dump(out)
         dump["file_state"] = file_state(out)
@@ -162,8 +167,14 @@ def imports(ctx, case):
             if case.get("flat") and fmt == "gff3":
                 # top-level features only: no second-level relation exists
                 t = "\n".join(l for l in t.splitlines() if l.startswith("##") or "\tgene\t" in l) + "\n"
+            if case.get("strategy"):
+                # inputs that repeat some of their own lines, imported under a strategy that keeps going
+                ls = [l for l in t.splitlines() if l and not l.startswith("#")]
+                t = t + "\n".join(ls[:: max(1, len(ls) // 3)][:4]) + "\n"
             texts.append(t)
-        solos = [solitary(ctx, root, t, case["from_string"]) for t in texts]
+        solos = [solitary(ctx, root, t, case["from_string"], case.get("strategy"),
+                          no_inference=bool(case.get("no_inference")) and case["fmts"][j % len(case["fmts"])] == "gtf")
+                 for j, t in enumerate(texts)]
         try:
             ino = subprocess.Popen(["inotifywait", "-m", "-q", "-e", "create", "-e", "delete", "--format", "%e %f", tmpdir],
                                    stdout=subprocess.PIPE, stderr=subprocess.DEVNULL, text=True)
@@ -192,6 +203,12 @@ def imports(ctx, case):
                  "from_string": case["from_string"], "offset_ms": rng.randrange(0, 51), "barrier_timeout": 30}
             if case.get("failer") and case["barrier"]:
                 a["wait_marker"] = os.path.join(bdir, "failer.done")
+            if case.get("strategy"):
+                a["merge_strategy"] = case["strategy"]
+            if case.get("no_inference") and case["fmts"][i % len(case["fmts"])] == "gtf":
+                a["no_inference"] = True
+            if case.get("shared_iterator"):
+                a["shared_iterator"] = True
             if case.get("prefix_names"):
                 a["force"] = True
             if case.get("late_starter") and i == 0:
@@ -207,8 +224,6 @@ def imports(ctx, case):
                     a["offset_ms"] = 150
             af = os.path.join(outdir, "args%d.json" % i)
             json.dump(a, open(af, "w"))
-            if case.get("shared_iterator"):
-                a["shared_iterator"] = True
             if case.get("forkpool"):
                 procs.append((i, a, None))
             else:
@@ -386,6 +401,10 @@ def imports(ctx, case):
             ctx.mon("runs with importers forked from one parent that had already used gffutils")
             for act in case.get("parent_actions", []):
                 ctx.mon("forking parent had used the library: " + act)
+        if case.get("strategy"):
+            ctx.mon("runs importing inputs with repeated lines under merge_strategy=%s" % case["strategy"])
+        if case.get("no_inference"):
+            ctx.mon("runs with GTF importers that have gene and transcript inference switched off")
         if case.get("shared_iterator"):
             ctx.mon("runs in which forked importers share one DataIterator object made by the parent")
         if case.get("hashseeds"):
@@ -501,6 +520,10 @@ def run(ctx):
                         seeds = [rng.randrange(10 ** 6)] if mix == "same" else [rng.randrange(10 ** 6) for _ in range(N)]
                         case = {"kind": "imports", "n": N, "fmts": fmts, "seeds": seeds, "size": 3 if barrier else 25,
                                 "from_string": from_string, "barrier": barrier, "hashseeds": i % 2 == 0}
+                        if i % 3 == 0 or (from_string and i % 2 == 0):
+                            case["strategy"] = "warning" if from_string else ["warning", "create_unique", "merge"][(i // 3) % 3]
+                        if "gtf" in fmts and i % 5 == 0:
+                            case["no_inference"] = True
                         execute(ctx, case)
                         ov = case.pop("_overlap", 0)
                         pat = case.pop("_pattern", [])
@@ -542,6 +565,11 @@ def run(ctx):
                 case = {"kind": "imports", "n": N, "fmts": fmts, "seeds": [rng.randrange(10 ** 6) for _ in range(N)], "size": 3,
                         "from_string": False, "barrier": True, "forkpool": True,
                         "parent_actions": rng.sample(PARENT_ACTIONS, rng.randrange(0, 3))}
+                if mix == "gff3+gtf":
+                    # workers of a forked pool end through os._exit: nothing is cleaned up at interpreter exit
+                    case.update({"from_string": True, "strategy": ["warning", "merge", "create_unique", "warning"][[2, 4, 8, 16, 24].index(N) % 4]})
+                if mix == "gtf":
+                    case["no_inference"] = True
                 if mix == "different" or (mix == "gtf" and N == 4):
                     # all children import from ONE DataIterator object that the parent made before forking
                     case.update({"shared_iterator": True, "seeds": case["seeds"][:1], "size": 40})
@@ -594,7 +622,7 @@ MANIFEST = {
             "hold a live intermediate file, so the overlap is observed, not hoped for; runs without the barrier and with random "
             "start offsets are added. Every temp path each process opens/creates/removes is logged by an audit hook and checked "
             "offline together with an independent inotify log; each output is compared with a solitary import through plain "
-            "sqlite3. Reader processes read a finished database simultaneously while an import runs beside them. Variants: outputs sharing a basename in different directories, flat inputs without second-level relations, a deliberately failing neighbour import released while the healthy ones hold their intermediate files, imports of ~2*10^5 features, and a look into the directory while each importer process is still alive; readers also run region/limit queries. Importers are also forked (os.fork) from one parent interpreter that has already used the library (set_pragmas, update/delete, a failed import, the escape switch toggled and restored); one importer is parked at each of the first statements of _update_relations/_finalize/_populate_from_lines while a neighbour import starts, runs and finishes; outputs whose names are prefixes of one another are imported with force=True over stale files with one late starter; the journal mode and side files of each output are compared with a solitary import's; forked importers also share one DataIterator object made by their parent; spawned importers get their own PYTHONHASHSEED and the rows are compared in stored order.",
+            "sqlite3. Reader processes read a finished database simultaneously while an import runs beside them. Variants: outputs sharing a basename in different directories, flat inputs without second-level relations, a deliberately failing neighbour import released while the healthy ones hold their intermediate files, imports of ~2*10^5 features, and a look into the directory while each importer process is still alive; readers also run region/limit queries. Importers are also forked (os.fork) from one parent interpreter that has already used the library (set_pragmas, update/delete, a failed import, the escape switch toggled and restored); one importer is parked at each of the first statements of _update_relations/_finalize/_populate_from_lines while a neighbour import starts, runs and finishes; outputs whose names are prefixes of one another are imported with force=True over stale files with one late starter; the journal mode and side files of each output are compared with a solitary import's; forked importers also share one DataIterator object made by their parent; spawned importers get their own PYTHONHASHSEED and the rows are compared in stored order; the importers' garbage collector is off (what a pool worker ending through os._exit is left with), some inputs repeat their own lines under merge_strategy warning/merge/create_unique, some GTF importers run with both inference options off.",
     "note": "Trusted: the OS scheduler only for the free-running class; CPython audit events for open/remove/mkstemp. Evidence "
             "reports the maximum number of simultaneously live intermediate files actually seen.",
 }
